@@ -218,10 +218,60 @@ def update_fw_step(versions, combos):
     return fn
 
 
+def tcp_step(versions):
+    """(C) the TCP gateway's own handler table (I_VERSION resets the watchdog): internal
+    messages through TCPGateway.logic never raise, rejected ones have no effect."""
+    def fn(w):
+        from mysensors import gateway_tcp
+        version = w.pick(versions, "version")
+        flavour = w.pick(["sync", "async"], "flavour")
+        env = C.make_env(w)
+        with env.installed():
+            ints = [w.fresh_int(n) for n in C.FIELDS[:5]]
+            w.assume_fast(w.eq(ints[2], 3))
+            payload = C.wire_payload(w, "payload", 1)
+            line = C.structured_line(w, ints, payload)
+            w.info = {"version": version, "flavour": flavour, "line": line}
+            verdict = C.classify(w, version, line)
+            cls = gateway_tcp.TCPGateway if flavour == "sync" else gateway_tcp.AsyncTCPGateway
+            g = C.GW()
+            g.flavour, g.transport_kind, g.version = flavour, "serial", version
+            g.events = C.EventLog(C.sym_flag(w, "callback_raises"), w)
+            g.gw = w.new(cls, "127.0.0.1", event_callback=g.events, protocol_version=version)
+            g.events.gw = g.gw
+            g.conn = C.FakeConn()
+            g.gw.tasks.transport.protocol.transport = g.conn
+            C.gen_network(w, g, ["awake1"])
+            before = (C.snap_gateway(g.gw), g.gw.tcp_check_timer)
+            t_disc = g.gw.tcp_disconnect_timer
+            try:
+                C.step_line(w, g, line)
+            except Exception as exc:
+                w.escaped(exc, f"TCP gateway pump raised[{C.kind_tag(w, version, ints)}]")
+            if verdict != "accepted":
+                C.check_no_effect(w, g, before[0], f"{verdict} line")
+                w.check(w.eq(g.gw.tcp_disconnect_timer, t_disc),
+                        f"{verdict} line reset the TCP watchdog")
+                w.goal("rejected-no-effect")
+            else:
+                w.goal("accepted")
+                is_version = w.is_true(w.eq(ints[4], 2))
+                if is_version:
+                    w.goal("version-answer")
+                    w.check(w.le(t_disc, g.gw.tcp_disconnect_timer),
+                            "version answer moved the watchdog timer backwards")
+                else:
+                    w.check(w.eq(g.gw.tcp_disconnect_timer, t_disc),
+                            "a message other than a version answer reset the TCP watchdog")
+    return fn
+
+
 def build(tier):
     q = tier == "quick"
     versions = C.VERSIONS
     combos = [("sync", "serial"), ("async", "serial"), ("sync", "mqtt")]
+    if not q:
+        combos = combos + [("async", "mqtt")]
     shapes_q = [[], ["sleep", "awake"]]
     shapes_t = [[], ["awake", "sleep"], ["sleep_old", "bare"], ["sleep2", "awake1"],
                 ["sleep", "awake"]]
@@ -255,6 +305,11 @@ def build(tier):
                                            [["awake1"], ["sleep"], ["sleep_old"]], P + 1, combos),
                 {"value_atoms_max": P + 1, "value_type": "int | numeric str | 1-char text"},
                 goals=["returned", "refused"], doc="set_child_value as a step, then drain + wake-up"),
+        Harness("C-tcp-internal", tcp_step(["1.4", "2.2"] if q else versions),
+                {"gateway": "TCPGateway / AsyncTCPGateway", "command": "internal (3)",
+                 "payload_atoms_max": 1},
+                goals=["accepted", "rejected-no-effect", "version-answer"],
+                doc="internal messages through the TCP gateways' handler table"),
         Harness("C-update-fw", update_fw_step(["1.4", "2.2"] if q else versions, combos),
                 {"fw_type/fw_ver": "unbounded ints", "image": "100 bytes via stubbed load_fw",
                  "requests": "config (5 symbolic words) then block (3 symbolic words), hex-encoded"},
